@@ -154,6 +154,10 @@ type mvSess struct {
 	l0l0Seen bool
 	// options of the session (for `reopen`)
 	opt badger.Options
+	// spec.seq at the last reopen: committedTxns does not survive a restart, so conflict detection
+	// (only observable in managed mode, where a transaction may read below an earlier commit) knows
+	// nothing about commits made before it
+	reopenSeq int
 }
 
 func (s *mvSess) close() {
@@ -217,6 +221,7 @@ func (s *mvSess) open(kv map[string]string) (string, error) {
 	comp := kvInt(kv, "comp", 0)
 	memsz := kvInt(kv, "memsz", 1<<20)
 	vlogpct := kvInt(kv, "vlogpct", 0) // percent; > 0 enables dynamic value thresholds
+	vmax := kvInt(kv, "vmax", 0)      // > 0: ValueLogMaxEntries (the value log rotates after that many entries)
 	s.dir = ""
 	var opt badger.Options
 	if s.inmem {
@@ -243,6 +248,9 @@ func (s *mvSess) open(kv map[string]string) (string, error) {
 	if vlogpct > 0 {
 		opt = opt.WithVLogPercentile(float64(vlogpct) / 100)
 	}
+	if vmax > 0 {
+		opt = opt.WithValueLogMaxEntries(uint32(vmax))
+	}
 	var err error
 	s.opt = opt
 	if s.managed {
@@ -257,11 +265,12 @@ func (s *mvSess) open(kv map[string]string) (string, error) {
 	s.txns = map[int]*mvTxn{}
 	s.spec = newSpec()
 	s.lastCts = 0
+	s.reopenSeq = 0
 	s.droppedAll = false
 	s.l0l0Seen = false
 	mc, ms, _ := badger.VerifLimits(s.db)
-	return fmt.Sprintf("reset managed=%d keep=%d thr=%d inmem=%d levels=%d detect=%d tblsz=%d basesz=%d comp=%d memsz=%d now=%d maxcount=%d maxsize=%d vlogsz=%d",
-		b2i(s.managed), s.keep, s.thr, b2i(s.inmem), s.levels, b2i(detect), tblsz, basesz, comp, memsz, s.now, mc, ms, 1<<20), nil
+	return fmt.Sprintf("reset managed=%d keep=%d thr=%d inmem=%d levels=%d detect=%d tblsz=%d basesz=%d comp=%d memsz=%d vmax=%d now=%d maxcount=%d maxsize=%d vlogsz=%d",
+		b2i(s.managed), s.keep, s.thr, b2i(s.inmem), s.levels, b2i(detect), tblsz, basesz, comp, memsz, vmax, s.now, mc, ms, 1<<20), nil
 }
 
 func b2i(b bool) int {
@@ -433,6 +442,7 @@ func execMvcc(intents []string, st *Stats) (final, outs, oracle []string) {
 			}
 			emit(line, fmt.Sprintf("ok next=%d", badger.VerifNextTxnTs(s.db)))
 			s.lastCts = 0
+			s.reopenSeq = s.spec.seq
 			emit("dump", s.dump())
 			s.judgeStructure(fail)
 			s.judgeStable("close+open", pre, fail)
@@ -566,68 +576,87 @@ func execMvcc(intents []string, st *Stats) (final, outs, oracle []string) {
 			} else {
 				err = tx.t.Commit()
 			}
-			// C02 oracle: was a key this transaction read written by a commit after its read ts?
-			conflictDue := ""
-			if tx.update && !tx.done && len(tx.pending) > 0 {
-				dnow := badger.VerifDiscardTs(s.db)
-				for k := range tx.reads {
-					for _, v := range s.spec.hist[k] {
-						if v.ver > tx.readTs && (!s.managed || v.ver > dnow) {
-							conflictDue = fmt.Sprintf("key %s read at ts %d was written at ts %d", hx([]byte(k)), tx.readTs, v.ver)
-						}
-					}
-				}
-			}
+			conflictDue := s.conflictDue(tx)
 			badger.VerifSyncMarks(s.db)
 			// a full memtable is rotated (and flushed by the background flusher) BEFORE this
 			// commit's entries are written: report that flush ahead of the commit line
 			badger.VerifWaitFlushed(s.db)
-			nRot := s.emitEventsX(emit, fail, "", true)
-			_ = nRot
-			wasDone := tx.done
-			switch {
-			case err == nil && len(tx.pending) > 0 && !wasDone:
-				// normal mode: the timestamp just allocated (the harness is the only committer)
-				ts := badger.VerifNextTxnTs(s.db) - 1
+			s.emitEventsX(emit, fail, "", true)
+			// normal mode: the timestamp just allocated (the harness is the only committer)
+			emit(line, s.commitDone(tx, cts, err, badger.VerifNextTxnTs(s.db)-1, conflictDue, fail))
+		case "batchcommit":
+			// batchcommit id:cts ...: the write pipeline is parked (VerifHoldWriter) while the commits
+			// are issued asynchronously (CommitWith / CommitAt with a callback); the first one is being
+			// served, the others queue up and are then written by ONE writeRequests / valueLog.write
+			// call. Timestamps and conflict checks happen at issue time, in this order.
+			var txs []*mvTxn
+			var ctss []uint64
+			for _, a := range w[1:] {
+				parts := strings.SplitN(a, ":", 2)
+				id, _ := strconv.Atoi(parts[0])
+				c := uint64(0)
+				if len(parts) == 2 {
+					c = atou(parts[1])
+				}
+				txs = append(txs, s.txns[id])
+				ctss = append(ctss, c)
+			}
+			base := badger.VerifNextTxnTs(s.db)
+			release := badger.VerifHoldWriter(s.db)
+			errs := make([]error, len(txs))
+			dones := make([]chan struct{}, len(txs))
+			dues := make([]string, len(txs))
+			for i, tx := range txs {
+				dones[i] = make(chan struct{})
+				if tx == nil {
+					close(dones[i])
+					continue
+				}
+				i := i
+				cb := func(err error) { errs[i] = err; close(dones[i]) }
+				dues[i] = s.conflictDueBatch(tx, txs[:i], errs[:i])
 				if s.managed {
-					ts = cts
-				}
-				for _, k := range tx.order {
-					sv := tx.pending[k]
-					sv.ver = ts
-					s.spec.add([]byte(k), sv)
-				}
-				emit(line, fmt.Sprintf("ok %d", ts))
-				if conflictDue != "" && len(s.spec.dropFloor) == 0 {
-					fail("C02-conflict-missed", "Commit returned nil although "+conflictDue)
-				}
-				if !s.managed {
-					if ts <= s.lastCts {
-						fail("C03-ts-order", fmt.Sprintf("commit ts %d not above previous %d", ts, s.lastCts))
-					}
-					if ts <= tx.readTs {
-						fail("C03-ts-order", fmt.Sprintf("commit ts %d <= own read ts %d", ts, tx.readTs))
-					}
-					s.lastCts = ts
-				}
-				tx.done = true
-			case err == nil:
-				emit(line, "ok noop")
-				tx.done = true
-			default:
-				emit(line, errKind(err))
-				if err == badger.ErrTxnTooBig && !wasDone {
-					// every Set/Delete of this transaction had been accepted (rejected ones are not
-					// in tx.pending and do not change the transaction)
-					fail("C28-accepted-toobig", fmt.Sprintf("Commit of a transaction whose %d writes were all accepted failed with ErrTxnTooBig", len(tx.pending)))
-				}
-				if err == badger.ErrConflict || len(tx.pending) > 0 {
-					// Commit defers Discard for every path past the precheck
-					if !strings.Contains(err.Error(), "CommitTs cannot be zero") && !strings.Contains(err.Error(), "discarded txn") {
-						tx.done = true
-					}
+					_ = tx.t.CommitAt(ctss[i], cb)
+				} else {
+					tx.t.CommitWith(cb)
 				}
 			}
+			deadline := time.Now().Add(20 * time.Second)
+			for badger.VerifWriteChLen(s.db) > 0 && time.Now().Before(deadline) {
+				time.Sleep(time.Millisecond)
+			}
+			time.Sleep(5 * time.Millisecond)
+			release()
+			hung := false
+			for i := range dones {
+				select {
+				case <-dones[i]:
+				case <-time.After(60 * time.Second):
+					hung = true
+				}
+			}
+			if hung {
+				emit(line, "hang")
+				fail("impl-hang", "a commit issued while the write pipeline was parked did not complete within 60 s after it was released")
+				continue
+			}
+			badger.VerifSyncMarks(s.db)
+			badger.VerifWaitFlushed(s.db)
+			s.emitEventsX(emit, fail, "", true)
+			var outs []string
+			next := base
+			for i, tx := range txs {
+				if tx == nil {
+					outs = append(outs, "err:discarded")
+					continue
+				}
+				ts := next
+				if errs[i] == nil && len(tx.pending) > 0 && !tx.done && !s.managed {
+					next++
+				}
+				outs = append(outs, s.commitDone(tx, ctss[i], errs[i], ts, dues[i], fail))
+			}
+			emit(line, strings.Join(outs, ";"))
 		case "discard":
 			id, _ := strconv.Atoi(w[1])
 			if tx := s.txns[id]; tx != nil {
@@ -730,6 +759,89 @@ func (s *mvSess) judgeGet(tx *mvTxn, key []byte, out string, fail func(string, s
 			tag = "F27b:write-below-dropped-tombstone"
 		}
 		fail(tag, fmt.Sprintf("Get returned %q, the snapshot at readTs=%d holds %q", out, tx.readTs, want))
+	}
+}
+
+// conflictDue: C02 oracle — was a key this transaction read written by a commit after its read ts?
+func (s *mvSess) conflictDue(tx *mvTxn) string {
+	due := ""
+	if tx.update && !tx.done && len(tx.pending) > 0 {
+		dnow := badger.VerifDiscardTs(s.db)
+		for k := range tx.reads {
+			for _, v := range s.spec.hist[k] {
+				if v.ver > tx.readTs && (!s.managed || v.ver > dnow) && v.seq > s.reopenSeq {
+					due = fmt.Sprintf("key %s read at ts %d was written at ts %d", hx([]byte(k)), tx.readTs, v.ver)
+				}
+			}
+		}
+	}
+	return due
+}
+
+// conflictDueBatch: the same inside a batch: the earlier members of the batch that were accepted
+// count as committed although the spec has not been updated yet.
+func (s *mvSess) conflictDueBatch(tx *mvTxn, earlier []*mvTxn, _ []error) string {
+	due := s.conflictDue(tx)
+	if due != "" || !tx.update || tx.done || len(tx.pending) == 0 || s.managed {
+		return due
+	}
+	for _, e := range earlier {
+		if e == nil || e == tx || !e.update || len(e.pending) == 0 {
+			continue
+		}
+		for k := range tx.reads {
+			if _, ok := e.pending[k]; ok {
+				return "" // judged by the model only: the earlier member may itself have been refused
+			}
+		}
+	}
+	return due
+}
+
+// commitDone: bookkeeping and oracles after a Commit returned err; ts is the commit timestamp a
+// successful normal-mode commit got (managed mode: cts). Returns the output of the op.
+func (s *mvSess) commitDone(tx *mvTxn, cts uint64, err error, ts uint64, conflictDue string, fail func(string, string)) string {
+	wasDone := tx.done
+	switch {
+	case err == nil && len(tx.pending) > 0 && !wasDone:
+		if s.managed {
+			ts = cts
+		}
+		for _, k := range tx.order {
+			sv := tx.pending[k]
+			sv.ver = ts
+			s.spec.add([]byte(k), sv)
+		}
+		if conflictDue != "" && len(s.spec.dropFloor) == 0 {
+			fail("C02-conflict-missed", "Commit returned nil although "+conflictDue)
+		}
+		if !s.managed {
+			if ts <= s.lastCts {
+				fail("C03-ts-order", fmt.Sprintf("commit ts %d not above previous %d", ts, s.lastCts))
+			}
+			if ts <= tx.readTs {
+				fail("C03-ts-order", fmt.Sprintf("commit ts %d <= own read ts %d", ts, tx.readTs))
+			}
+			s.lastCts = ts
+		}
+		tx.done = true
+		return fmt.Sprintf("ok %d", ts)
+	case err == nil:
+		tx.done = true
+		return "ok noop"
+	default:
+		if err == badger.ErrTxnTooBig && !wasDone {
+			// every Set/Delete of this transaction had been accepted (rejected ones are not
+			// in tx.pending and do not change the transaction)
+			fail("C28-accepted-toobig", fmt.Sprintf("Commit of a transaction whose %d writes were all accepted failed with ErrTxnTooBig", len(tx.pending)))
+		}
+		if err == badger.ErrConflict || len(tx.pending) > 0 {
+			// Commit defers Discard for every path past the precheck
+			if !strings.Contains(err.Error(), "CommitTs cannot be zero") && !strings.Contains(err.Error(), "discarded txn") {
+				tx.done = true
+			}
+		}
+		return errKind(err)
 	}
 }
 
@@ -1425,8 +1537,12 @@ func genMvccSession(rng *rand.Rand, st *Stats) []string {
 		comp = 0
 	}
 	var ops []string
-	ops = append(ops, fmt.Sprintf("reset managed=%d keep=%d thr=%d inmem=%d levels=%d detect=1 tblsz=%d basesz=%d comp=%d memsz=%d",
-		b2i(managed), keep, thr, b2i(inmem), levels, tblsz, basesz, comp, memsz))
+	vmaxG := 0
+	if !inmem && rng.Intn(3) == 0 {
+		vmaxG = pick(rng, 3, 5, 8) // frequent value-log rotations (also in the middle of a write batch)
+	}
+	ops = append(ops, fmt.Sprintf("reset managed=%d keep=%d thr=%d inmem=%d levels=%d detect=1 tblsz=%d basesz=%d comp=%d memsz=%d vmax=%d",
+		b2i(managed), keep, thr, b2i(inmem), levels, tblsz, basesz, comp, memsz, vmaxG))
 	st.Inc(fmt.Sprintf("session:managed=%v,inmem=%v,keep=%d", managed, inmem, keep))
 	nkeys := 2 + rng.Intn(7)
 	var keys [][]byte
@@ -1692,6 +1808,39 @@ func genMvccSession(rng *rand.Rand, st *Stats) []string {
 			}
 			ops = append(ops, fmt.Sprintf("commit %d %d", id, c))
 			open = append(open[:j], open[j+1:]...)
+		case r < 71 && len(open) >= 2:
+			// several commits written by one writeRequests / valueLog.write call
+			nb := 2 + rng.Intn(3)
+			if nb > len(open) {
+				nb = len(open)
+			}
+			perm := rng.Perm(len(open))[:nb]
+			var items []string
+			gone := map[int]bool{}
+			for _, j := range perm {
+				id := open[j]
+				gone[id] = true
+				c := uint64(0)
+				if managed {
+					cts++
+					c = cts
+					for _, k := range txnKeys[id] {
+						if c > keyMax[k] {
+							keyMax[k] = c
+						}
+					}
+				}
+				items = append(items, fmt.Sprintf("%d:%d", id, c))
+			}
+			ops = append(ops, "batchcommit "+strings.Join(items, " "))
+			var keep []int
+			for _, id := range open {
+				if !gone[id] {
+					keep = append(keep, id)
+				}
+			}
+			open = keep
+			st.Inc("batchcommit")
 		case r < 73:
 			j := rng.Intn(len(open))
 			ops = append(ops, fmt.Sprintf("discard %d", open[j]))
